@@ -180,7 +180,6 @@ class ExprGen:
                     [ch.choice(CMP_OPS)])
         if k == "chain":
             n = ch.int(3, 4)
-            # chain operands are pure (they may be evaluated more than once)
             return ("cmp", [self.gen("num", d + 1) for _ in range(n)],
                     [ch.choice(CMP_OPS) for _ in range(n - 1)])
         if k == "eq":
@@ -373,6 +372,18 @@ class FlowGen:
         return ("bool", ch.bool())
 
     def logged_cond(self, vars_):
+        ints = [n for n, k in vars_.items() if k == "int"]
+        if ints and self.ch.bool(0.2):
+            # a chain whose middle operand logs: every operand of a chain is
+            # evaluated once, and not at all behind a pair that is FALSE
+            self.features.add("chain-with-logging-operand")
+            v = ("var", self.ch.choice(ints))
+            mid = call("chk", ("int", self.tag()), v)
+            last = call("chk", ("int", self.tag()),
+                        ("int", self.ch.int(2, 9)))
+            return ("cmp", [("int", self.ch.int(0, 3)), mid, last],
+                    [self.ch.choice(["<", "<=", "!="]),
+                     self.ch.choice(["<", "<=", "=="])])
         if self.ch.bool(0.7):
             return call("chk", ("int", self.tag()), self.cond(vars_))
         return self.cond(vars_)
